@@ -2423,6 +2423,13 @@ class Module(ABC):
                 `False` largely speeds up moving, especially for big networks, but
                 `.nodes` or `.show` will not show the new xyz coordinates.
         """
+        # The traced coordinates belong to entire branches.
+        in_base = self.base.nodes["global_branch_index"].isin(self._branches_in_view)
+        if in_base.sum() != len(self.nodes):
+            raise ValueError(
+                "`.move()` moves entire branches, but the view contains only a part of "
+                "some branch."
+            )
         for i in self._branches_in_view:
             self.base.xyzr[i][:, :3] += np.array([x, y, z])
         if update_nodes:
